@@ -197,6 +197,9 @@ class World:
         except Exception:  # noqa
             pass
         cfgadapter.KNOWN_PLAINTEXTS[:] = sorted(self.plaintexts)
+        bad = cfgadapter.wrong_config_types(self.cinco, self.schema, self.cfg)
+        if bad:
+            return {"cfg": {"t": "wrong-config-type", "why": "%s is not an instance of its declared configuration type" % bad[0]}}
         return {"cfg": cfgadapter.project_cfg(self.cinco, self.cfg, self.root)}
 
     def remember(self, v):
